@@ -548,6 +548,9 @@ func genPlan(seed uint64, idx int) *Plan {
 		}
 		q.RespSize = core.Pick(r, []int{0, 10, 10, 1000, 20000})
 		q.NoDrain = g.chance(1, 12)
+		if g.chance(1, 12) && i+1 < nr {
+			q.TimeoutMs = core.Pick(r, []int{1, 200, 1500, 40000})
+		}
 		p.Reqs = append(p.Reqs, q)
 	}
 	return p
